@@ -22,6 +22,11 @@ def parseSteps (l : List String) : Option (List StepOutcome) := l.mapM parseStep
 def parseBool (s : String) : Option Bool :=
   if s == "1" then some true else if s == "0" then some false else none
 
+/-- commit / rollback flag: 1 = succeeds; 0, 2, 3, 4 = fails (with the fake's own error or a well-known sentinel —
+    the model does not distinguish the kinds: the outcome may not depend on which error the driver returns) -/
+def parseFinish (s : String) : Option Bool :=
+  if s == "1" then some true else if s == "0" || s == "2" || s == "3" || s == "4" then some false else none
+
 def showEvent : Event → String
   | .begin => "begin" | .step i => s!"s{i}" | .commit => "commit" | .rollback => "rollback"
 
@@ -35,7 +40,7 @@ def showStep : StepOutcome → String
 def step (_ : Unit) (line : String) : Unit × String :=
   match words line with
   | "tx" :: b :: c :: r :: steps =>
-    match parseBool b, parseBool c, parseBool r, parseSteps steps with
+    match parseBool b, parseFinish c, parseFinish r, parseSteps steps with
     | some b, some c, some _, some steps =>
       let out := transact Nv.Gen.C18.cfg b c steps
       ((), s!"events={",".intercalate (out.1.map showEvent)} result={showResult out.2}")
